@@ -218,6 +218,10 @@ impl<'a> Model<'a> {
         }
 
         let n = trials as u64;
+        if n == 0 {
+            // no trials: the only outcome is 0 successes (statrs' inverse_cdf panics on this)
+            return CalcResult::Number(0.0);
+        }
 
         let dist = match Binomial::new(p, n) {
             Ok(d) => d,
